@@ -916,6 +916,8 @@ def _resolve_action_conflicts(
                         and isinstance(competing_event, ActionEvent)
                         and competing_event.action_uid
                         and competing_event.action_uid != winning_event.action_uid
+                        # A flow that only holds a reference to an action of another flow keeps it
+                        and competing_event.action_uid in competing_flow_state.action_uids
                     ):
                         # All heads that are on the exact same action as the winning head
                         # need to replace their action references with the winning heads action reference
